@@ -9,16 +9,19 @@ From GoRes Require Export Mux.Spec.
 
 Record lookup := LK { lk_mux : nat; lk_name : bytes; lk_obs : lres }.   (* LPanic = GetHandler panicked *)
 (* one Handle / AddListener call as performed (also those inside Route callbacks), in order *)
-Record reg := RG { rg_mux : nat; rg_pat : bytes; rg_hid : N; rg_grp : bytes; rg_par : bool; rg_ok : bool }.
+Record reg := RG { rg_mux : nat; rg_pat : bytes; rg_hid : N; rg_grp : bytes; rg_par : bool; rg_ok : bool; rg_onreg : bool;
+  rg_clean : bool   (* the Handle call returned normally (false with rg_ok = true: a Handler.Listeners entry panicked after the handler was placed) *) }.
 Record lreg := LR { lr_mux : nat; lr_pat : bytes; lr_lid : N; lr_ok : bool }.
 Record mcase := MC {
-  c_ops : list (op * bool);              (* operation, panicked in the implementation *)
+  c_ops : list (xop * bool * list event); (* operation, panicked in the implementation, OnRegister callbacks it fired *)
   c_lookups : list lookup;
   c_valid : list bool;                   (* per mux id: ValidateListeners() == nil *)
   c_paths : list bytes;                  (* per mux id: Path() *)
   c_abs : list (nat * list bytes);       (* per mux id, harness bookkeeping: top-level ancestor, literal tokens from its root *)
   c_regs : list reg;
-  c_lregs : list lreg
+  c_lregs : list lreg;
+  c_registered : list bool;              (* per mux id: registered to a service (harness bookkeeping) *)
+  c_contains : list (nat * N * bool)     (* Mux.Contains(handler id) as answered by the implementation *)
 }.
 
 Fixpoint lbeq (a b : list bytes) : bool :=
@@ -42,7 +45,18 @@ Fixpoint bleq (a b : list bool) : bool :=
 
 (* ---- correspondence ----
    codes: 1 which ops panicked  2 hit/none/panic or handler identity  3 params  4 group
-          5 listeners  6 ValidateListeners  7 location of a mux (mount bookkeeping) *)
+          5 listeners  6 ValidateListeners  7 location of a mux (mount bookkeeping) / registered flag
+          8 OnRegister callbacks fired by an operation (as a multiset of (full pattern, handler id))   9 Mux.Contains *)
+Definition ev_eq (a b : event) : bool := beq (fst a) (fst b) && (snd a =? snd b).
+Definition ev_count (e : event) (l : list event) : nat := length (filter (ev_eq e) l).
+Definition ev_same (a b : list event) : bool :=
+  Nat.eqb (length a) (length b) && forallb (fun e => Nat.eqb (ev_count e a) (ev_count e b)) a.
+Fixpoint evl_same (a b : list (list event)) : bool :=
+  match a, b with
+  | [], [] => true
+  | x :: a', y :: b' => ev_same x y && evl_same a' b'
+  | _, _ => false
+  end.
 Definition cmp_lookup (m o : lres) : list N :=
   match m, o with
   | LNone, LNone | LPanic, LPanic => []
@@ -54,18 +68,24 @@ Definition cmp_lookup (m o : lres) : list N :=
 Definition loc_eq (a : option (nat * list bytes)) (b : nat * list bytes) : bool :=
   match a with Some (t, p) => Nat.eqb t (fst b) && lbeq p (snd b) | None => false end.
 Definition check_case (c : mcase) : list N :=
-  let '(st, fl) := replay [] (map fst (c_ops c)) in
-  (if bleq fl (map snd (c_ops c)) then [] else [1]) ++
+  let '(xs, fl) := xreplay (XS [] [] []) (map (fun x => fst (fst x)) (c_ops c)) in
+  let st := xs_st xs in
+  (if bleq (map fst fl) (map (fun x => snd (fst x)) (c_ops c)) then [] else [1]) ++
+  (if evl_same (map snd fl) (map snd (c_ops c)) then [] else [8]) ++
   flat_map (fun l => cmp_lookup (get_handler st (lk_mux l) (lk_name l)) (lk_obs l)) (c_lookups c) ++
   (if bleq (map (validate_listeners st) (seq 0 (length (c_valid c)))) (c_valid c) then [] else [6]) ++
   (if forallb (fun kb => loc_eq (top_of st (fst kb)) (snd kb)) (combine (seq 0 (length (c_abs c))) (c_abs c))
-      && Nat.eqb (length st) (length (c_abs c)) then [] else [7]).
+      && Nat.eqb (length st) (length (c_abs c)) && bleq (xs_reg xs) (c_registered c)
+      && lbeq (map (path_of st) (seq 0 (length (c_paths c)))) (c_paths c) then [] else [7]) ++
+  (if forallb (fun x => Bool.eqb (mux_contains st (fst (fst x)) (snd (fst x))) (snd x)) (c_contains c) then [] else [9]).
 
 (* ---- the property on the implementation's outputs ----
    codes: 1 wrong handler / hit instead of nothing / nothing instead of hit
           2 params are not the name's tokens at the $ positions   3 group is not the substituted template
           4 lookup panicked   5 a documented-valid, non-conflicting pattern was rejected
-          6 an invalid or conflicting pattern was accepted   7 listeners are not those of the matched pattern *)
+          6 an invalid or conflicting pattern was accepted   7 listeners are not those of the matched pattern
+          8 OnRegister was not called exactly once, with the full pattern, for every accepted handler that
+            carries it and whose mux ended up below a registered one (and for no other) *)
 Fixpoint strip_toks (pre l : list bytes) : option (list bytes) :=
   match pre, l with
   | [], _ => Some l
@@ -140,9 +160,18 @@ Fixpoint viol_regs (c : mcase) (seen : list reg) (seenl : list lreg) (rs : list 
     (if (negb (doc_valid r) || dup) && rg_ok r then [6] else []) ++
     viol_regs c (if rg_ok r then r :: seen else seen) seenl rest
   end.
+Definition expected_events (c : mcase) : list event :=
+  flat_map (fun r =>
+    let t := fst (abs_of c (rg_mux r)) in
+    if rg_ok r && rg_clean r && rg_onreg r && nth t (c_registered c) false
+    then [(join (split_pattern (nth t (c_paths c) []) ++ full_toks c (rg_mux r) (rg_pat r)), rg_hid r)]
+    else []) (c_regs c).
 Definition viol_case (c : mcase) : list N :=
   flat_map (viol_lookup c) (c_lookups c) ++
-  viol_regs c [] (filter lr_ok (c_lregs c)) (c_regs c).
+  viol_regs c [] (filter lr_ok (c_lregs c)) (c_regs c) ++
+  (* callbacks of handlers whose Handle call panicked after placing them are not judged *)
+  (let unclean := map rg_hid (filter (fun r => rg_ok r && negb (rg_clean r)) (c_regs c)) in
+   if ev_same (expected_events c) (filter (fun e => negb (existsb (N.eqb (snd e)) unclean)) (flat_map snd (c_ops c))) then [] else [8]).
 
 Fixpoint run_idx {A} (f : A -> list N) (i : N) (cs : list A) : list (N * N) :=
   match cs with
